@@ -29,7 +29,7 @@ ASSUMPTIONS = ["rounding-level equivalence: threshold 2e-8 x system scale for <=
                "corrector2=1 is excluded from the rounding clauses: the library's inverse second corrector is not the exact inverse map (U(-a,-b) differs from U(a,b)^-1 in the order of the outer drifts), so safe and unsafe mode differ at truncation level there (measured up to 3e-3)",
                "EOS takes part in the idempotence clause only: its agreement with safe mode is a truncation-order statement about a pure function of dt (not decided here)",
                "observers that read particle data synchronise first, as the documentation requires"]
-PROBES = ["observer_on_unsynchronized_state", "sync_twice", "sync_thrice", "copy_observer", "archive_observer", "bitwise_clause_checked", "safe_vs_unsafe_checked", "idempotence_checked", "timestep_modification_callback"]
+PROBES = ["observer_on_unsynchronized_state", "sync_twice", "sync_thrice", "copy_observer", "archive_observer", "bitwise_clause_checked", "safe_vs_unsafe_checked", "idempotence_checked", "timestep_modification_callback", "with_variational_particles"]
 
 INTEGS = ["whfast", "whfast", "whfast", "saba", "saba", "mercurius", "eos"]
 OBS = ["sync", "sync2", "sync3", "energy", "angmom", "orbits", "copy", "copy_nosync", "bytes", "bytes_nosync", "equal", "snapshot", "snapshot_nosync",
@@ -43,7 +43,9 @@ OBS = ["sync", "sync2", "sync3", "energy", "angmom", "orbits", "copy", "copy_nos
 def generate(rng, tier, index):
     c = rng.derive("cfg")
     integ = INTEGS[index % len(INTEGS)] if index < 28 else c.choice(INTEGS)
-    cfg = simgen.gen_planetary_config(c, integrators=[integ], nmin=2, nmax=6, allow_var=False, allow_collisions=False, allow_tp=c.chance(0.3))
+    # first-order variational particles / MEGNO ride along with WHFast (they live in p_jh behind the real particles and are advanced by the same
+    # half steps): they take part in the bit-for-bit clause; the rounding clauses are about the real particles
+    cfg = simgen.gen_planetary_config(c, integrators=[integ], nmin=2, nmax=6, allow_var=(integ == "whfast" and c.chance(0.6)), allow_collisions=False, allow_tp=c.chance(0.3))
     for k in ("exit_max_distance", "force", "units"):
         cfg.pop(k, None)
     for p in cfg["particles"][1:]:
@@ -248,7 +250,9 @@ def execute(case, ctx):
             U.synchronize()
             Ref.synchronize()
             import math
-            regular = (2 * math.pi / math.sqrt(cfg["G"])) / abs(cfg["dt"]) >= 36.9 and not cfg["opts"].get("ri_whfast.corrector2")
+            regular = (2 * math.pi / math.sqrt(cfg["G"])) / abs(cfg["dt"]) >= 36.9 and not cfg["opts"].get("ri_whfast.corrector2") and not (cfg.get("var") or cfg.get("megno"))
+            if cfg.get("var") or cfg.get("megno"):
+                probe("with_variational_particles")
             tol = 2e-8
             if integ != "eos" and regular:
                 d, scale = maxdiff(U, Ref)
